@@ -2,6 +2,7 @@
 group "lin"."""
 import math
 from fractions import Fraction as F
+from fractions import Fraction
 from .core import fr, frs, dhex
 from .runner import Case
 from . import props_mixed
@@ -106,7 +107,8 @@ def gen_C13(g, tier):
                     cs.append(Case('sq %d cinv %s' % (n, frs(sing)), 'cmp', 'complex-singular'))
     for sh in DIRECT:
         for _ in range(reps):
-            cs.append(Case('direct %d %d %d %d %s' % (sh + (frs(g.rats(sh[0] * sh[1] + sh[2] * sh[3])),)), 'cmp', 'kronecker'))
+            kv = g.rats(sh[0] * sh[1] + sh[2] * sh[3])
+            cs.append(Case('direct %d %d %d %d %s' % (sh + (frs(kv),)), 'cmp', 'kronecker', check=kron_check(sh, kv)))
     for (u, l, b, r) in PART:
         for _ in range(reps):
             vals = g.rats((u + b) * (l + r))
@@ -170,6 +172,48 @@ def angles(g, n):
 
 def rot_args(v, th):
     return '%s %s %s %s' % (frs(v), dhex(th), dhex(math.sin(th)), dhex(math.cos(th)))
+
+
+def kron_check(sh, kv):
+    """defining identity of the Kronecker product: result[ar*Br+br][ac*Bc+bc] = A[ar][ac] * B[br][bc]"""
+    Ar, Ac, Br, Bc = sh
+    A = [[kv[i * Ac + j] for j in range(Ac)] for i in range(Ar)]
+    off = Ar * Ac
+    B = [[kv[off + i * Bc + j] for j in range(Bc)] for i in range(Br)]
+    want = [A[i // Br][j // Bc] * B[i % Br][j % Bc] for i in range(Ar * Br) for j in range(Ac * Bc)]
+    def chk(vals, line):
+        if vals is None: return 'error result ' + line[:100]
+        if list(vals) != want: return 'direct(A,B) differs from the Kronecker product at %s' % [k for k in range(min(len(vals), len(want))) if vals[k] != want[k]][:6]
+        return None
+    return chk
+
+
+def datum_check(vals_in, i, v):
+    """generic element access on a matrix: the const accessor reads the i-th stored scalar (row-major), the mutable one
+    writes exactly that scalar, ndim is the number of stored scalars"""
+    def chk(vals, line):
+        if vals is None: return 'error result ' + line[:100]
+        n = len(vals_in)
+        if len(vals) != n + 2: return 'unexpected output'
+        if vals[0] != vals_in[i]: return 'const DatumTraits::element(%d) read %s, stored %s' % (i, vals[0], vals_in[i])
+        want = list(vals_in); want[i] = v
+        if list(vals[1:n + 1]) != want: return 'mutable DatumTraits::element(%d) wrote to the wrong place' % i
+        if vals[n + 1] != n: return 'ndim is %s, %d scalars are stored' % (vals[n + 1], n)
+        return None
+    return chk
+
+
+def gen_datum(g, tier):
+    """implementation-only oracle used by C04 (element-access traits of Matrix and Vector, every shape up to 4x5, every index)"""
+    cs = []
+    for (r, c) in SHALL:
+        if True:
+            vals = [Fraction(10 * (a + 1) + (b + 1)) for a in range(r) for b in range(c)]
+            for i in range(r * c):
+                v = Fraction(-7, 2)
+                cs.append(Case('m %d %d datum %s %d %s' % (r, c, frs(vals), i, fr(v)), 'orc', 'matrix-traits-%s' % ('square' if r == c else 'nonsquare'),
+                               check=datum_check(vals, i, v)))
+    return cs
 
 
 def small_abs(tol, xs):
